@@ -115,6 +115,39 @@ PROPERTIES = {
                       T + "_continue", T + "_continue_on_generator"],
         "assumptions": [A_ENV_GEN, "context hooks and value providers do not trip (and swallow) the runaway-recursion guard of the scheduler they run under"],
     },
+    "C09": {
+        "functions": ["decorators." + n for n in [
+            "has_async_fn", "get_async_or_sync_fn", "PureAsyncDecorator.asyncio", "PureAsyncDecorator._call_pure",
+            "PureAsyncDecorator.__call__", "AsyncDecorator.asynq", "AsyncDecorator.__call__", "AsyncDecoratorBinder.asynq",
+            "AsyncDecoratorBinder.asyncio", "AsyncAndSyncPairDecorator.__call__", "AsyncAndSyncPairDecoratorBinder.__call__",
+            "AsyncProxyDecorator._call_pure", "AsyncAndSyncPairProxyDecorator.__call__", "AsyncWrapper._call_async",
+            "AsyncWrapper.asynq"]] + ["utils.result", "async_task.AsyncTaskResult.__init__"],
+        "assumptions": ["qcore.decorators.DecoratorBase.__get__/__init__, DecoratorBinder.__call__ and decorate() (compiled dependency) bind "
+                        "(decorator, instance) as their shipped source says: assumed; the finite matrix decorator x binding x argument pattern x "
+                        "body kind is exercised by the bounded stand-in conventions_agree",
+                        "the decorated function, sync_fn and task class are unknown callables (env.fncall)"],
+        "not_proved": ["descriptor binding inside qcore.decorators", "AsyncAndSyncPairDecorator.__get__ (rebinding of sync_fn; bounded only)",
+                       "is_pure_async_fn / get_async_fn / async_call case analysis (bounded only)"],
+    },
+    "C15": {
+        "functions": ["asynq_to_async." + n for n in ["is_asyncio_mode", "AsyncioMode.__enter__", "AsyncioMode.__exit__", "_gather"]] + [
+            "decorators.PureAsyncDecorator._call_pure", "decorators.AsyncDecorator.__call__", "decorators.AsyncAndSyncPairDecorator.__call__",
+            "decorators.PureAsyncDecorator.asyncio", "decorators.AsyncProxyDecorator._call_pure"],
+        "assumptions": ["asyncio.ensure_future / asyncio.wait(ALL_COMPLETED) / Task.result / Task.exception and ContextVar.set/reset/get behave as "
+                        "documented (environment contracts env.asyncio.*, env.ctxvar.*); awaiting ALL_COMPLETED completes every task (site assumption)",
+                        "the event loop itself is outside reach"],
+        "not_proved": ["the generator driver convert_asynq_to_async.<wrapped> and resolve_awaitables are not discharged in this round (dict "
+                       "comprehension / loop invariant over the mode object): bounded stand-in asyncio_matches_asynq",
+                       "equivalence with fn(args) for whole programs (composition argument)"],
+    },
+    "C19": {
+        "functions": ["mock_." + n for n in ["_AsynqWrapper.__call__", "_AsynqWrapper.__setattr__", "_AsynqWrapper.__getattr__",
+                                             "_AsyncioWrapper.__setattr__", "_AsyncioWrapper.__getattr__"]],
+        "structural": ["mock-restoration-delegated"],
+        "assumptions": ["unittest.mock._patch.__enter__/__exit__/start/stop restore as documented (restoration is entirely delegated: structural obligation); "
+                        "the finite matrix target kind x replacement kind x activation style x exit path is exercised by the bounded stand-in mock_patch_all_conventions"],
+        "not_proved": ["_PatchAsync.__enter__ / _maybe_wrap_new case analysis (bounded only)", "restoration itself (unittest.mock)"],
+    },
     "C12": {
         "functions": ["tools.DeduplicateDecorator.asynq", "tools.DeduplicateDecorator.asynq.callback", "tools.DeduplicateDecorator.dirty"],
         "structural": ["dedup-key-thread"],
